@@ -4,6 +4,7 @@ import (
 	"fmt"
 	"go/constant"
 	"go/token"
+	"go/types"
 	"sort"
 	"strings"
 
@@ -41,7 +42,10 @@ func rulesC12(c *Ctx, r *Report) {
 
 	// Z-PANIC: accept/panic boundary of complementByte over all 256 bytes
 	cb := c.role("sequtil.complement")
-	if cb == nil || len(cb.Params) != 1 {
+	if cb == nil {
+		// no helper: the lookup and its zero test are written out in each loop; decided per loop in rulesRCFlow
+		// from the table (already decided entry by entry above) and the path condition of the output
+	} else if len(cb.Params) != 1 {
 		r.undecided("Z-PANIC", "sequtil.complementByte", "anchor", "", "function not found")
 	} else {
 		r.analysed(fname(cb))
@@ -69,19 +73,19 @@ func rulesC12(c *Ctx, r *Report) {
 			r.check(len(wrongReject) == 0 && len(wrongVal) == 0, "Z-PANIC", fname(cb), "accepts letters", c.pos(cb.Pos()), "the ten letters return their complement", fmt.Sprintf("letters rejected: %v; wrong complement: %v", wrongReject, wrongVal))
 		}
 	}
-	rulesRCFlow(c, r, cb)
+	rulesRCFlow(c, r, cb, g)
 	rulesCanonical(c, r)
 	rulesEffC12(c, r)
 }
 
 // rulesRCFlow: FLOW-RC and SIB4.
-func rulesRCFlow(c *Ctx, r *Report, cb *ssa.Function) {
+func rulesRCFlow(c *Ctx, r *Report, cb *ssa.Function, tab *ssa.Global) {
 	type loopDesc struct{ elem, init, step, cond string }
 	var descs []loopDesc
 	for _, name := range []string{"ReverseComplement", "ReverseComplementString"} {
 		f := c.fn("sequtil", name)
 		where := "sequtil." + name
-		if f == nil || cb == nil {
+		if f == nil {
 			r.undecided("FLOW-RC", where, "anchor", "", "function not found")
 			continue
 		}
@@ -89,12 +93,26 @@ func rulesRCFlow(c *Ctx, r *Report, cb *ssa.Function) {
 		s := newSymb(f)
 		srcIdx := len(f.Params) - 1 // src / s is the last parameter
 		srcName := fmt.Sprintf("P%d", srcIdx)
-		calls := staticCallsTo(f, cb)
-		if len(calls) != 1 {
-			r.undecided("FLOW-RC", where, "complement call", c.pos(f.Pos()), fmt.Sprintf("expected one complementByte call, found %d", len(calls)))
-			continue
+		var comp ssa.Value // the complemented byte
+		var argV ssa.Value // what it is the complement of
+		if cb != nil {
+			calls := staticCallsTo(f, cb)
+			if len(calls) != 1 {
+				r.undecided("FLOW-RC", where, "complement call", c.pos(f.Pos()), fmt.Sprintf("expected one complementByte call, found %d", len(calls)))
+				continue
+			}
+			comp, argV = calls[0], calls[0].Call.Args[0]
+		} else {
+			var why string
+			comp, argV, why = inlineComplement(c, f, tab)
+			if comp == nil {
+				r.undecided("Z-PANIC", where, "inline lookup", c.pos(f.Pos()), why)
+				continue
+			}
+			okG, whyG := zeroGuarded(f, comp)
+			r.check(okG, "Z-PANIC", where, "rejects others", c.pos(comp.Pos()), "every output of the table value is on the non-zero side of a test whose zero side panics: the 246 bytes with a zero entry panic, the ten letters (T-COMP) pass", whyG)
 		}
-		arg := s.expr(calls[0].Call.Args[0])
+		arg := s.expr(argV)
 		// element of the source: load(P[idx]) for slices, lookup(P, idx) for strings
 		var idx *Sym
 		if arg.Op == "load" && arg.Args[0].Op == "index" && arg.Args[0].Args[0].String() == srcName {
@@ -102,11 +120,11 @@ func rulesRCFlow(c *Ctx, r *Report, cb *ssa.Function) {
 		} else if (arg.Op == "lookup" || arg.Op == "index") && arg.Args[0].String() == srcName {
 			idx = arg.Args[1]
 		}
-		if !r.check(idx != nil, "FLOW-RC", where, "complemented value", c.pos(calls[0].Pos()), "complementByte is applied to an element of the source", "complementByte is applied to "+arg.String()+", not to an element of the source") {
+		if !r.check(idx != nil, "FLOW-RC", where, "complemented value", c.pos(comp.Pos()), "complementByte is applied to an element of the source", "complementByte is applied to "+arg.String()+", not to an element of the source") {
 			continue
 		}
 		// every output byte is that call's result
-		outOK, outWhy := rcOutputsAre(f, calls[0])
+		outOK, outWhy := rcOutputsAre(f, comp)
 		r.check(outOK, "FLOW-RC", where, "output bytes", c.pos(f.Pos()), "every byte appended/written is the result of that complementByte call", outWhy)
 		// loop shape: the sequence of source indices over the iterations
 		law, why := indexLawOf(s, f, idx.Val)
@@ -126,12 +144,12 @@ func rulesRCFlow(c *Ctx, r *Report, cb *ssa.Function) {
 }
 
 // rcOutputsAre: every append onto dst / WriteByte receives exactly call's result.
-func rcOutputsAre(f *ssa.Function, call *ssa.Call) (bool, string) {
+func rcOutputsAre(f *ssa.Function, call ssa.Value) (bool, string) {
 	n := 0
 	why := ""
 	instrs(f, func(in ssa.Instruction) {
 		cl, ok := in.(*ssa.Call)
-		if !ok || cl == call {
+		if !ok || ssa.Value(cl) == call {
 			return
 		}
 		if b, ok := cl.Call.Value.(*ssa.Builtin); ok && b.Name() == "append" {
@@ -150,7 +168,7 @@ func rcOutputsAre(f *ssa.Function, call *ssa.Call) (bool, string) {
 			for _, ref := range *al.Referrers() {
 				if ia, ok := ref.(*ssa.IndexAddr); ok {
 					for _, r2 := range *ia.Referrers() {
-						if st, ok := r2.(*ssa.Store); ok && st.Val != ssa.Value(call) {
+						if st, ok := r2.(*ssa.Store); ok && st.Val != call {
 							why = "appended byte is not the complementByte result"
 						}
 					}
@@ -160,7 +178,7 @@ func rcOutputsAre(f *ssa.Function, call *ssa.Call) (bool, string) {
 		}
 		if callee := cl.Call.StaticCallee(); callee != nil && methIs(callee, "strings", "Builder", "WriteByte") {
 			n++
-			if cl.Call.Args[1] != ssa.Value(call) {
+			if cl.Call.Args[1] != call {
 				why = "written byte is not the complementByte result"
 			}
 		}
@@ -293,6 +311,10 @@ var complementPairs = map[byte]byte{'a': 't', 'c': 'g', 'g': 'c', 't': 'a', 'n':
 func rulesComplementTable(c *Ctx, r *Report) (*ssa.Global, []int64, bool) {
 	funcs := c.moduleFuncs()
 	g := c.tableIn(c.role("sequtil.complement"), 0)
+	if g == nil {
+		// lookup written out in the loops themselves
+		g = c.tableIn(c.fn("sequtil", "ReverseComplement"), 0)
+	}
 	where := "sequtil.complementBytes"
 	if g == nil {
 		r.undecided("T-COMP", where, "anchor", "", "table variable not found")
@@ -337,4 +359,95 @@ func rulesComplementTable(c *Ctx, r *Report) (*ssa.Global, []int64, bool) {
 	c.ruleWhoMayWrite(r, "T-WMW", g, "sequtil", c.initFuncsOf("sequtil"), funcs)
 
 	return g, tab, true
+}
+
+// inlineComplement: the complement lookup written out in f: the one load of tab[x]; returns the loaded value and x.
+func inlineComplement(c *Ctx, f *ssa.Function, tab *ssa.Global) (ssa.Value, ssa.Value, string) {
+	var loads []*ssa.UnOp
+	instrs(f, func(in ssa.Instruction) {
+		ld, ok := in.(*ssa.UnOp)
+		if !ok || ld.Op != token.MUL {
+			return
+		}
+		ia, ok := ld.X.(*ssa.IndexAddr)
+		if !ok {
+			return
+		}
+		if b, ok := ia.X.(*ssa.UnOp); ok && b.Op == token.MUL && b.X == ssa.Value(tab) {
+			loads = append(loads, ld)
+		}
+	})
+	if len(loads) != 1 {
+		return nil, nil, fmt.Sprintf("no complement helper, and %d lookups of the table in %s (want one)", len(loads), fname(f))
+	}
+	idx := loads[0].X.(*ssa.IndexAddr).Index
+	for {
+		cv, ok := idx.(*ssa.Convert)
+		if !ok {
+			break
+		}
+		// widening an unsigned byte keeps its value
+		if bt, ok := cv.X.Type().Underlying().(*types.Basic); !ok || bt.Kind() != types.Uint8 {
+			break
+		}
+		idx = cv.X
+	}
+	return loads[0], idx, ""
+}
+
+// zeroGuarded: every use of v other than the zero test lies on the non-zero side of `v == 0` / `v != 0`, the zero
+// side of that test always panics, and nothing else in f panics.
+func zeroGuarded(f *ssa.Function, v ssa.Value) (bool, string) {
+	var test *ssa.If
+	var nz, z *ssa.BasicBlock
+	for _, b := range f.Blocks {
+		iff, ok := lastInstr(b).(*ssa.If)
+		if !ok {
+			continue
+		}
+		bo, ok := iff.Cond.(*ssa.BinOp)
+		if !ok || (bo.Op != token.EQL && bo.Op != token.NEQ) {
+			continue
+		}
+		if !((bo.X == v && isZero(bo.Y)) || (bo.Y == v && isZero(bo.X))) {
+			continue
+		}
+		if test != nil {
+			return false, "the table value is tested against zero more than once"
+		}
+		test = iff
+		if bo.Op == token.EQL {
+			z, nz = b.Succs[0], b.Succs[1]
+		} else {
+			z, nz = b.Succs[1], b.Succs[0]
+		}
+	}
+	if test == nil {
+		return false, "the table value is never tested against zero: bytes outside aAcCgGtTnN are complemented to 0 instead of panicking"
+	}
+	if !blockAlwaysPanics(z) {
+		return false, "the zero side of the test does not panic"
+	}
+	if len(nz.Preds) != 1 {
+		return false, "the non-zero side of the test is reachable without the test"
+	}
+	for _, ref := range *v.Referrers() {
+		if ref == test.Cond.(ssa.Instruction) {
+			continue
+		}
+		if !nz.Dominates(ref.Block()) && !z.Dominates(ref.Block()) {
+			return false, "the table value is used at " + fname(f) + " outside the non-zero side of its test"
+		}
+	}
+	for _, b := range f.Blocks {
+		if _, ok := lastInstr(b).(*ssa.Panic); ok && !z.Dominates(b) {
+			return false, "a panic other than the zero-entry one: letters may be rejected"
+		}
+	}
+	return true, ""
+}
+
+func isZero(v ssa.Value) bool {
+	k, ok := cInt(constVal(v))
+	return ok && k == 0
 }
